@@ -23,6 +23,15 @@ def gen_cases(ctx):
                 g = rand_gate(rng, n, [kind])
                 if len(g["cs"]) == nc or kind in ("CNOT", "Toffoli"): break
             mk(n, [dict(g, g="op")])
+    # every custom unitary of the pool (diagonal, anti-diagonal, symmetric, non-symmetric) with 0..2 controls, and ry_phase at
+    # theta = 0 / pi (diagonal / anti-diagonal special cases of the exporter's angle extraction)
+    for u in us:
+        for nc in (0, 1, 2):
+            mk(4, [{"g": "op", "kind": "U2", "params": u, "ts": [1], "cs": [0, 3][:nc]}])
+    for kind in ("RYP", "RYPdag"):
+        for th in (0.0, math.pi, -math.pi, 2 * math.pi):
+            for nc in (0, 1):
+                mk(3, [{"g": "op", "kind": kind, "params": [float2bits(th), float2bits(0.7)], "ts": [2], "cs": [0][:nc]}])
     # parameter sweep for every parametrised kind
     for kind in ("P", "RX", "RY", "RZ"):
         for x in PARAM_SWEEP:
